@@ -8,3 +8,4 @@ INFO = {'not_decided': ['deleting files, removing __init__.py, shadowing an alre
                           'references only through get_nmodule)',
                           'Inv_cache and determinism of the analysis (C04, C17) => every request under check_changes equals the request on a fresh Project'],
         'trusted': []}
+import props._all  # noqa
